@@ -11,6 +11,7 @@ From BV Require Import Base.Bytes Model.CodecsBase Gen.C18Tables.
 From BV Require Import Model.CodecsL2cap Model.CodecsRfcomm Model.CodecsSdp Model.CodecsUuid Model.CodecsAv.
 From BV Require Import Proofs.CodecsL2cap Proofs.CodecsRfcomm Proofs.CodecsSdp Proofs.CodecsUuid Proofs.CodecsAv.
 From BV Require Import Model.SpecCodec Model.CodecsRegistry Proofs.CodecsRegistry Gen.C18Registry.
+From BV Require Import Model.CodecsXfields Proofs.CodecsXfields Gen.C18XRegistry.
 Import ListNotations.
 Open Scope Z_scope.
 
@@ -389,6 +390,47 @@ Theorem C18_registry_pdu_roundtrip : forall c, In c C18Registry.classes -> foral
 Proof. exact gen_pdu_roundtrip. Qed.
 Print Assumptions C18_registry_pdu_roundtrip.
 
+(* ------------------------------------------------------------------ every field-driven class, custom fields included *)
+(* Gen/C18XRegistry.v (regenerated every run): EVERY class of L2CAP_Control_Frame.classes,
+   ATT_PDU.pdu_classes, SMP_Command.smp_classes, SDP_PDU.subclasses and avdtp.Message.subclasses,
+   with the custom field parsers (PSM, CID / handle lists, length-value tuples, SDP handle lists,
+   length-prefixed bytes, UUIDs, SDP data elements, SEIDs, endpoints, service capabilities) as specs
+   of Model/CodecsXfields.v.  Per-run obligations, then the round trip for every class and every
+   in-range value list, through C01's sequence combinator. *)
+Theorem C18_xregistry_wf : wf_xregistry C18XRegistry.xclasses = true.
+Proof. exact xregistry_checked. Qed.
+Print Assumptions C18_xregistry_wf.
+
+Theorem C18_xregistry_keys_unique : xkeys_unique C18XRegistry.xclasses = true.
+Proof. exact xregistry_keys_checked. Qed.
+Print Assumptions C18_xregistry_keys_unique.
+
+Theorem C18_xregistry_complete :
+  map (fun pc => xcount C18XRegistry.xclasses (fst pc)) C18XRegistry.xregistered = map snd C18XRegistry.xregistered.
+Proof. exact xregistry_counts_checked. Qed.
+Print Assumptions C18_xregistry_complete.
+
+Theorem C18_xregistry_fields_roundtrip : forall c, In c C18XRegistry.xclasses ->
+  forall prev0 vs, xin_range (x_fields c) prev0 vs = true ->
+  exists b n, xserialize (x_fields c) vs = Some b /\
+              xparse (x_fields c) prev0 b = Some (vs, n) /\ (n <= length b)%nat.
+Proof. exact gen_xfields_roundtrip. Qed.
+Print Assumptions C18_xregistry_fields_roundtrip.
+
+(* the codec itself, every field list: self-delimiting lists with any trailing bytes, and any
+   well-formed list ('*'-like fields last) *)
+Theorem C18_xfields_roundtrip_tight : forall fs prev0 vs,
+  tight XTop_codec fs = true -> xin_range fs prev0 vs = true ->
+  exists b, xserialize fs vs = Some b /\ forall tail, xparse fs prev0 (b ++ tail) = Some (vs, length b).
+Proof. exact xfields_roundtrip_tight. Qed.
+Print Assumptions C18_xfields_roundtrip_tight.
+
+Theorem C18_xfields_roundtrip : forall fs prev0 vs,
+  xwf fs = true -> xin_range fs prev0 vs = true ->
+  exists b n, xserialize fs vs = Some b /\ xparse fs prev0 b = Some (vs, n) /\ (n <= length b)%nat.
+Proof. exact xfields_roundtrip. Qed.
+Print Assumptions C18_xfields_roundtrip.
+
 (* ------------------------------------------------------------------ non-vacuity *)
 Example C18_ex_sframe_poll :
   ecf_ok (SFrame {| s_function := 0; s_poll := 1; s_req_seq := 5; s_final := 0 |}) = true /\
@@ -434,6 +476,12 @@ Example C18_ex_registry :
   (Nat.leb 55 (Datatypes.length C18Registry.classes)) = true /\
   pdu_encode (mkp 1 2 String.EmptyString [F1 (UInt 2)]) 0 [VInt 517] = Some [2; 5; 2].
 Proof. vm_compute. split; reflexivity. Qed.
+
+Example C18_ex_xregistry :
+  xin_range [XPsm; XA (UInt 2)] 0 [VInt 4097; VInt 64] = true /\
+  xserialize [XPsm; XA (UInt 2)] [VInt 4097; VInt 64] = Some [1; 16; 64; 0] /\
+  xin_range [XSdpElem; XA (UIntBE 2); XA Rest] 0 [VBytes [53; 3; 25; 17; 1]; VInt 10; VBytes [0]] = true.
+Proof. vm_compute. repeat split; reflexivity. Qed.
 
 Example C18_ex_rtp :
   let p := {| r_version := 2; r_padding := 0; r_extension := 0; r_marker := 1; r_seq := 10; r_ts := 20;
